@@ -19,7 +19,7 @@ import (
 	"time"
 
 	kmip "github.com/ovh/kmip-go"
-	_ "github.com/ovh/kmip-go/payloads"
+	"github.com/ovh/kmip-go/payloads"
 	"github.com/ovh/kmip-go/ttlv"
 
 	"verif/harness/core"
@@ -105,8 +105,14 @@ func buildCases(seed uint64, n int) []kase {
 		switch de {
 		case "xml":
 			data = xtree.WriteXML(tree)
+			if i%4 < 2 {
+				data = xtree.WriteXMLNamed(tree) // enumeration values by name: the name indexes are consulted
+			}
 		case "json":
 			data = xtree.WriteJSON(tree)
+			if i%4 < 2 {
+				data = xtree.WriteJSONNamed(tree)
+			}
 		default:
 			data = wire.Gen(tree)
 		}
@@ -136,6 +142,33 @@ func newEncoder(enc string) ttlv.Encoder {
 	return ttlv.NewTTLVEncoder()
 }
 
+func marshalFn(enc string, v any) []byte {
+	switch enc {
+	case "xml":
+		return ttlv.MarshalXML(v)
+	case "json":
+		return ttlv.MarshalJSON(v)
+	case "text":
+		return ttlv.MarshalText(v)
+	}
+	return ttlv.MarshalTTLV(v)
+}
+
+// poison runs an encode call that panics half way through a message (a Go map as attribute value) and recovers,
+// as a server's batch executor does around a handler: whatever the library keeps between calls must survive it.
+func poison(enc string) (panicked bool) {
+	defer func() {
+		if recover() != nil {
+			panicked = true
+		}
+	}()
+	m := kmip.RequestMessage{Header: kmip.RequestHeader{ProtocolVersion: kmip.V1_1, BatchCount: 1},
+		BatchItem: []kmip.RequestBatchItem{{Operation: kmip.OperationAddAttribute, RequestPayload: &payloads.AddAttributeRequestPayload{UniqueIdentifier: "poison",
+			Attribute: kmip.Attribute{AttributeName: "x-poison", AttributeValue: map[string]int{"a": 1}}}}}}
+	marshalFn(enc, &m)
+	return false
+}
+
 // run executes one case with fresh codec objects and returns its result digest.
 func run(k *kase) (res string) {
 	defer func() {
@@ -144,6 +177,9 @@ func run(k *kase) (res string) {
 		}
 	}()
 	if !k.decode {
+		if k.target.Tag == 0 && k.id%4 == 0 {
+			return h(marshalFn(k.enc, k.value)) // the package-level convenience functions are a path of their own
+		}
 		e := newEncoder(k.enc)
 		return h(encodeWith(&e, k))
 	}
@@ -232,7 +268,7 @@ func Spec() *core.Spec {
 			"H: reused cleared encoders driven through seeded sequences mixing versions, headerless payloads and formats, and single decoders fed several concatenated items. All results must equal R's; race reports with a library frame are violations. " +
 			"distinct = distinct (process kind, goroutine, first-use order) executions",
 		Assumptions: []string{"results are compared as digests of the output bytes (encode) or of the reference layout of the decoded value (decode)"},
-		Required:    []string{"results_compared", "results_compared_with_fresh_process", "cold_process_goroutines", "history_steps"},
+		Required:    []string{"results_compared", "results_compared_with_fresh_process", "cold_process_goroutines", "history_steps", "poisoned_encodes_recovered"},
 		EvalCounter: "results_compared",
 		RaceVerdict: func(r core.RaceReport) (string, bool) {
 			a, b := core.RaceLibFrames(r)
@@ -334,6 +370,15 @@ func Spec() *core.Spec {
 						for _, idx := range rr.Perm(len(cases)) {
 							k := &cases[idx]
 							steps++
+							if steps%17 == 3 {
+								if poison([]string{"ttlv", "xml", "json", "text"}[rr.Intn(4)]) {
+									c.Count("poisoned_encodes_recovered", 1)
+								}
+							}
+							if !k.decode && k.target.Tag == 0 && rr.P(1, 3) {
+								record(k.id, run(k)) // through the convenience functions / a fresh encoder, after whatever came before
+								continue
+							}
 							if !k.decode {
 								// reused encoder: Clear, then encode; the previous message's version must not leak
 								e := encoders[k.enc]
